@@ -20,7 +20,7 @@ def load_mutants():
             pf = os.path.join(sd, d, 'patch.diff')
             if os.path.exists(meta) and os.path.exists(pf):
                 m = json.load(open(meta))
-                exp = {p: r for p, r in m.get('detected_by', {}).items()}
+                exp = {p: [x.replace(' (vacuity guard)', '') for x in r] for p, r in m.get('detected_by', {}).items()}
                 ms.append(dict(name='seed_' + d, patch=os.path.join('seeded', d, 'patch.diff'), expect=exp, desc=m.get('summary', ''), kind='broken' if exp else 'missed-seed'))
     return ms
 
